@@ -33,7 +33,7 @@ func init() {
 		ID: "C18", Gen: genC18, Run: runC18, Quick: 700, Thorough: 150000,
 		Real: []string{"pkg/exporter InitExportingProcess TLS/DTLS client configuration (createClientConfig, dtls.Config)", "pkg/collector TLS server configuration (createServerConfig, client-certificate enforcement) and DTLS listener", "crypto/tls, crypto/x509, pion/dtls handshakes over the simulated network", "message path exporter -> collector for the delivered-messages clauses"},
 		Stub: []string{"OS sockets (simnet)", "wall clock (synctest bubble; moved across certificate validity windows = clock skew)", "tls.Dial's ServerName defaulting (simnet.TlsDial)", "adversarial peers: harness TLS server with capped version, plaintext sender, plaintext listener"},
-		Rule: "configuration matrix sampled by seed: server certificate {trusted, other CA, self-signed, expires day 20, valid from day 10, wrong SAN, no SAN, DNS-SAN only} x ServerName {unset, matching, mismatching} x client certificate {none, trusted, other CA, expired} x collector client-CA {set, unset} x {tls, dtls} x handshake day {0, 15, 25} x peer max version {1.1, 1.2, 1.3}, plus plaintext peers and re-use of one client-configuration object across sessions; every session is non-trivial; distinct = distinct configuration cell sequence",
+		Rule: "configuration matrix sampled by seed: server certificate {trusted, other CA, self-signed, expires day 20, valid from day 10, wrong SAN, no SAN, DNS-SAN only} x ServerName {unset, matching, mismatching} x client certificate {none, trusted, other CA, expired} x collector client-CA {set, unset} x {tls, dtls} x handshake day {0, 15, 25} x peer max version {1.1, 1.2, 1.3}, plus plaintext peers, re-use of one client-configuration object across sessions, and 2-3 exporting processes with different configurations (CA, name, client certificate, connection-check interval) one after the other against one long-lived collector; every session is non-trivial; distinct = distinct configuration cell sequence",
 	})
 }
 
@@ -85,6 +85,30 @@ func genC18(seed uint64, tier string) *plan.Plan {
 			}
 		}
 		op := plan.Op{K: "session", A: kind, B: proto, C: cert, D: d, N: []int64{sn, cli, int64(r.IntN(2)), int64(1 + r.IntN(3)), host}}
+		if !reuse && r.IntN(4) == 0 {
+			// one long-lived TLS collector, 2-3 exporting processes of the same application one after
+			// the other, each with its own configuration (CA, expected name, client certificate); the
+			// clock may move on between them
+			op.A, op.B = 4, 0
+			op.C = []int64{0, 0, 1, 3, 7}[r.IntN(5)]
+			op.N[4] = 0
+			for j, k := 0, 2+r.IntN(2); j < k; j++ {
+				ca := int64(r.IntN(2))
+				if j == 0 && r.IntN(4) > 0 {
+					// usually the first one is in order
+					ca = 0
+					if op.C == 1 {
+						ca = 1
+					}
+				}
+				adv := int64(0)
+				if j > 0 && r.IntN(3) == 0 {
+					adv = int64(1 + r.IntN(12))
+				}
+				op.F = append(op.F, plan.Op{K: "exp", A: ca, B: int64(r.IntN(3)), C: int64(r.IntN(4)), D: []int64{10, 1000, 3600000}[r.IntN(3)], T: int(adv)})
+				day += adv
+			}
+		}
 		pl.Ops = append(pl.Ops, op)
 		prev = &pl.Ops[len(pl.Ops)-1]
 	}
@@ -100,7 +124,12 @@ type c18Expect struct {
 }
 
 func c18Expectation(proto, cert, day, snMode, cliCert, cliCA int, v6 bool, hostB bool) c18Expect {
-	chains := cert != 1 && cert != 2
+	return c18ExpectationCA(proto, cert, day, snMode, cliCert, cliCA, v6, hostB, 0)
+}
+
+// expCA: the CA the exporter is configured with (0: the CA of the zoo, 1: the other CA).
+func c18ExpectationCA(proto, cert, day, snMode, cliCert, cliCA int, v6 bool, hostB bool, expCA int) c18Expect {
+	chains := (cert != 1 && cert != 2 && expCA == 0) || (cert == 1 && expCA == 1)
 	validTime := true
 	if cert == 3 && day >= 20 {
 		validTime = false
@@ -108,8 +137,8 @@ func c18Expectation(proto, cert, day, snMode, cliCert, cliCA int, v6 bool, hostB
 	if cert == 4 && day < 10 {
 		validTime = false
 	}
-	hasIPSAN := (cert == 0 || cert == 3 || cert == 4) && !hostB // IP SANs are those of host A
-	hasDNSSAN := cert == 0 || cert == 3 || cert == 4 || cert == 7
+	hasIPSAN := (cert == 0 || cert == 1 || cert == 3 || cert == 4) && !hostB // IP SANs are those of host A
+	hasDNSSAN := cert == 0 || cert == 1 || cert == 3 || cert == 4 || cert == 7
 	e := c18Expect{}
 	switch {
 	case !chains:
@@ -167,11 +196,17 @@ func runC18(pl *plan.Plan, out *plan.Outcome) {
 			kind, proto, cert, day := int(op.A), int(op.B)&1, int(op.C)%len(srvCerts), int(op.D)
 			snMode, cliCert, cliCA, maxV := int(n[0])%3, int(n[1])%4, int(n[2])&1, int(n[3])
 			cells += fmt.Sprintf("[%d %d %d %d %d %d %d %d %v]", kind, proto, cert, day, snMode, cliCert, cliCA, maxV, hostB)
+			for _, x := range op.F {
+				cells += fmt.Sprintf("(%d %d %d %d %d)", x.A, x.B, x.C, x.D, x.T)
+			}
 			// move the clock (both parties share it: certificates are judged at this instant)
 			target := bubbleEpoch.AddDate(0, 0, day).Add(time.Duration(si) * time.Hour)
 			if d := target.Sub(time.Now()); d > 0 {
 				env.Sleep(d)
 			}
+			// the day certificates are judged on is the clock's, whatever the plan says (an earlier
+			// session may have moved the clock further)
+			day = int(time.Since(bubbleEpoch) / (24 * time.Hour))
 			port := 4739 + si
 			h := host
 			if hostB {
@@ -215,6 +250,8 @@ func runC18(pl *plan.Plan, out *plan.Outcome) {
 				c18PlaintextSender(env, where, addr, proto, z, uint32(900+si))
 			case 3:
 				c18PlaintextListener(env, where, addr, proto, ein)
+			case 4:
+				c18SharedCollector(env, where, addr, srvCerts[cert], cert, cliCA, day, v6, z, ein, op.F, uint32(900+si), cliCerts)
 			}
 			if len(out.Violations) > 0 {
 				return
@@ -233,11 +270,18 @@ func runC18(pl *plan.Plan, out *plan.Outcome) {
 
 // startCollector starts a real collector and a consumer; stop() returns what was delivered.
 func c18StartCollector(env *Env, cin collector.CollectorInput) (stop func() []dMsg, err error) {
+	stop, _, err = c18StartCollectorPeek(env, cin)
+	return stop, err
+}
+
+// c18StartCollectorPeek additionally returns peek(): the messages delivered so far.
+func c18StartCollectorPeek(env *Env, cin collector.CollectorInput) (stop func() []dMsg, peek func() []dMsg, err error) {
 	cp, err := collector.InitCollectingProcess(cin)
 	if err != nil {
-		return nil, err
+		return nil, nil, err
 	}
 	var got []dMsg
+	peek = func() []dMsg { return got }
 	done := make(chan struct{})
 	env.Go("collector", func() { cp.Start() })
 	env.Go("consumer", func() {
@@ -272,7 +316,7 @@ func c18StartCollector(env *Env, cin collector.CollectorInput) (stop func() []dM
 		cp.CloseMsgChan()
 		waitOrTimeout(done, time.Second)
 		return got
-	}, nil
+	}, peek, nil
 }
 
 func waitOrTimeout(ch chan struct{}, d time.Duration) bool {
@@ -369,6 +413,87 @@ func c18RealCollector(env *Env, where, addr string, proto int, srv certPair, cli
 		env.Violate("valid-session-refused", []string{"tls", "dtls"}[proto], "%s: every certificate is acceptable, but InitExportingProcess failed: %v", where, ierr)
 	case e.mustEstablish && mine != sent:
 		env.Violate("valid-session-lost-messages", []string{"tls", "dtls"}[proto], "%s: %d messages sent over the established session, %d delivered", where, sent, mine)
+	}
+}
+
+// c18SharedCollector: one TLS collector that stays up while several exporting processes, each with
+// its own configuration, connect to it one after the other. Every one of them is judged on its own
+// configuration: what an earlier exporting process of the same application was allowed to do says
+// nothing about a later one.
+func c18SharedCollector(env *Env, where, addr string, srv certPair, cert, cliCA, day int, v6 bool, z *zoo, ein exporter.ExporterInput, exps []plan.Op, domain0 uint32, cliCerts []certPair) {
+	cin := collector.CollectorInput{Address: addr, Protocol: "tcp", MaxBufferSize: 65535, IsEncrypted: true, ServerCert: srv.CertPEM, ServerKey: srv.KeyPEM, TemplateTTL: 7200}
+	if cliCA == 1 {
+		cin.CACert = z.CA.PEM
+	}
+	stop, peek, err := c18StartCollectorPeek(env, cin)
+	if err != nil {
+		env.Out.Trouble = "collector: " + err.Error()
+		return
+	}
+	defer stop()
+	for j, x := range exps {
+		if x.T > 0 {
+			env.Sleep(time.Duration(x.T) * 24 * time.Hour)
+			day += x.T
+		}
+		expCA, snMode, cliCert := int(x.A)&1, int(x.B)%3, int(x.C)%4
+		cfg := &exporter.ExporterTLSClientConfig{CAData: z.CA.PEM, ServerName: []string{"", serverDNSName, "wrong.example"}[snMode]}
+		if expCA == 1 {
+			cfg.CAData = z.OtherCA.PEM
+		}
+		if cliCert > 0 {
+			cfg.CertData, cfg.KeyData = cliCerts[cliCert].CertPEM, cliCerts[cliCert].KeyPEM
+		}
+		e := c18ExpectationCA(0, cert, day, snMode, cliCert, cliCA, v6, false, expCA)
+		domain := domain0*100 + uint32(j)
+		in := ein
+		in.TLSClientConfig = cfg
+		in.ObservationDomainID = domain
+		in.CheckConnInterval = time.Duration(x.D) * time.Millisecond
+		w := fmt.Sprintf("%s, exporting process %d of %d against the same collector (day %d, configured CA %d, serverName mode %d, client cert %d)", where, j+1, len(exps), day, expCA, snMode, cliCert)
+		env.Logf("%s", w)
+		env.Count("c18.exporters_against_shared_collector", 1)
+		var ep *exporter.ExportingProcess
+		var ierr error
+		inited := make(chan struct{})
+		env.Go("exporter-init", func() {
+			defer close(inited)
+			Block("init", func() { ep, ierr = exporter.InitExportingProcess(in) })
+		})
+		if !waitOrTimeout(inited, 10*time.Minute) {
+			ierr = fmt.Errorf("InitExportingProcess did not return within 10 simulated minutes")
+			env.Count("probe.init_hung", 1)
+		}
+		sent := 0
+		if ierr == nil && ep != nil {
+			env.Count("c18.sessions_established", 1)
+			sent = c18SendSome(ep)
+			env.Sleep(2 * time.Second) // connection checks (reads) happen meanwhile
+			Block("close", func() { ep.CloseConnToCollector() })
+		} else {
+			env.Count("c18.sessions_refused", 1)
+		}
+		env.Sleep(time.Second)
+		mine := 0
+		for _, d := range peek() {
+			if d.Domain == domain {
+				mine++
+			}
+		}
+		env.Logf("%s -> init err=%v sent=%d delivered=%d", w, ierr != nil, sent, mine)
+		switch {
+		case e.mustRefuse && ierr == nil:
+			env.Violate("session-with-unverifiable-server", "tls", "%s: %s, but InitExportingProcess succeeded (and %d messages were delivered)", w, e.why, mine)
+		case e.zeroDelivered && mine > 0:
+			env.Violate("delivered-from-unauthenticated-exporter", "", "%s: %s, but the collector delivered %d messages from it", w, e.why, mine)
+		case e.mustEstablish && ierr != nil:
+			env.Violate("valid-session-refused", "tls", "%s: every certificate is acceptable, but InitExportingProcess failed: %v", w, ierr)
+		case e.mustEstablish && mine != sent:
+			env.Violate("valid-session-lost-messages", "tls", "%s: %d messages sent over the established session, %d delivered", w, sent, mine)
+		}
+		if len(env.Out.Violations) > 0 {
+			return
+		}
 	}
 }
 
